@@ -323,6 +323,86 @@ def container_ownership_part(res):
     res.part("container_ownership", pairs=n)
 
 
+CIRCUIT_COPY_SRC = '''import copy
+from pyimpspec import Circuit, Series, Parallel
+from pyimpspec.circuit.base import Connection, Container
+from pyimpspec.circuit.registry import get_elements
+E = get_elements(private=True)
+INF = float("inf")
+
+
+def build(which):
+    r = E["R"](R=0.1 + 0.2).set_label("a")                                   # a value that needs 17 significant digits
+    c = E["C"](C=1e-6 / 3).set_fixed(C=True)
+    q = E["Q"](Y=2.0 ** -20, n=0.7).set_lower_limits(Y=-INF).set_upper_limits(n=INF)
+    w = E["W"](Y=1 / 7)
+    if which == "flat":
+        return Circuit(Series([r, c]))
+    if which == "nested":
+        return Circuit(Series([r, Parallel([c, Series([q, w])])]))
+    t = E["Tlm"](X_1=Series([E["R"](R=2 / 3).set_label("ion")]), Zeta=Series([Parallel([E["R"](R=1 / 9), E["C"](C=1e-5 / 7)])]))
+    return Circuit(Series([r, Parallel([c, t])]))
+
+
+def sig(x):
+    """structure + the complete state of every element, compared exactly"""
+    if isinstance(x, Circuit):
+        return ("Circuit", sig(x._elements))
+    if isinstance(x, Connection):
+        return (type(x).__name__, tuple(sig(i) for i in x._elements))
+    st = (type(x).__name__, tuple(sorted(x.get_values().items())), tuple(sorted(x.get_lower_limits().items())), tuple(sorted(x.get_upper_limits().items())),
+          tuple(sorted(x.are_fixed().items())), x.get_label())
+    if isinstance(x, Container):
+        st += (tuple((k, None if v is None else sig(v)) for k, v in sorted(x.get_subcircuits().items())),)
+    return st
+
+
+def objects(x, out):
+    out.append(x)
+    if isinstance(x, Circuit):
+        objects(x._elements, out)
+    elif isinstance(x, Connection):
+        for i in x._elements:
+            objects(i, out)
+    elif isinstance(x, Container):
+        for v in x.get_subcircuits().values():
+            if v is not None:
+                objects(v, out)
+    return out
+'''
+
+
+def circuit_copy_part(res):
+    """copy.copy / copy.deepcopy of whole circuits, of their connections and of container elements: the copy has the same
+    structure and every element in it has EXACTLY the state of the original (values incl. ones that need 17 digits, infinite limits,
+    fixed flags, labels), shares no element or connection object with it, and the original is left as it was"""
+    env = {}
+    exec(CIRCUIT_COPY_SRC, env)
+    n = 0
+    for which in ("flat", "nested", "container"):
+        for how in ("copy", "deepcopy"):
+            circuit = env["build"](which)
+            targets = [("circuit", circuit), ("top-level connection", circuit._elements)] + [(f"{type(o).__name__} inside", o) for o in env["objects"](circuit, [])[2:] if not isinstance(o, (env["Circuit"],)) and (isinstance(o, (env["Connection"], env["Container"])))]
+            for name, obj in targets:
+                n += 1
+                res.case(("circuit-copy", which, how, name), nontrivial=True)
+                before = env["sig"](obj)
+                repro = CIRCUIT_COPY_SRC + f"\ncircuit = build({which!r})\nobj = [o for o in objects(circuit, []) if type(o).__name__ == {type(obj).__name__!r}][0]\nbefore = sig(obj)\nc = copy.{how}(obj)\nassert sig(c) == before, (sig(c), before)\nassert sig(obj) == before\nassert not ({{id(o) for o in objects(c, [])}} & {{id(o) for o in objects(obj, [])}})\n"
+                try:
+                    c = getattr(_copy, how)(obj)
+                except Exception as ex:  # noqa
+                    res.fail(f"circuit-copy:{how}:{which}:{name}:raises {type(ex).__name__}", f"{type(obj).__name__}.__{how}__", f"copy.{how} of the {name} of the {which} circuit raised {type(ex).__name__}: {str(ex)[:200]}", repro)
+                    continue
+                after = env["sig"](c)
+                if after != before:
+                    res.fail(f"circuit-copy:{how}:{which}:{name}:state-differs", f"{type(obj).__name__}.__{how}__", f"copy.{how} of the {name} of the {which} circuit differs from the original: {after} vs {before}", repro)
+                elif env["sig"](obj) != before:
+                    res.fail(f"circuit-copy:{how}:{which}:{name}:original-changed", f"{type(obj).__name__}.__{how}__", f"copy.{how} changed the original", repro)
+                elif {id(o) for o in env["objects"](c, [])} & {id(o) for o in env["objects"](obj, [])}:
+                    res.fail(f"circuit-copy:{how}:{which}:{name}:shared-objects", f"{type(obj).__name__}.__{how}__", f"the {how} of the {name} shares element / connection objects with the original", repro)
+    res.part("circuit_copies", cases=n)
+
+
 def main(a):
     import pyimpspec  # noqa
     from pyimpspec.circuit.registry import get_elements
@@ -342,6 +422,7 @@ def main(a):
                 res.fail(key, fn, what, repro)
     label_contract_part(res)
     container_ownership_part(res)
+    circuit_copy_part(res)
     return res
 
 
